@@ -89,6 +89,23 @@ func judgeInvalidation(r *Run, j *Judged, cl []*cls) {
 			if cx.H != nil && cx.H.SeqResp >= u.SeqInv {
 				continue // validated by a 304 the origin sent while / after it handled the unsafe request
 			}
+			// "stored earlier" means: the exchange that stored B had finished all its store writes (entry and
+			// index) before the unsafe request began, and no validation of the resource was still at work while
+			// the unsafe request was handled. Entry, index and invalidation are separate store operations; a
+			// storing or freshening exchange that overlaps the unsafe one can land its writes after the
+			// invalidation looked. The statement speaks of request sequences, not of such overlaps: not judged.
+			if cx.B.Call != nil && r.lastSeqOfLineage(cx.B.Call) >= u.SeqInv {
+				continue
+			}
+			overlapping := false
+			for _, o := range r.Calls {
+				if o.Res == cx.B.Res && safeMethods[o.Req.Method] && o.SeqStart < u.SeqRet && r.lastSeqOfLineage(o) > u.SeqInv {
+					overlapping = true
+				}
+			}
+			if overlapping {
+				continue
+			}
 			sig := "method=" + methodClass(u.Req.Method)
 			if cx.B.Res != u.Op.Res%len(r.Scn.Resources) {
 				sig = "location"
